@@ -221,7 +221,7 @@ def reach_locals(du, operand):
     return {'_%d' % x for x in out}
 
 
-def batch_script_set(ctx):
+def batch_script_set(ctx, rule='C09.r6'):
     """r6: the scripts matched against a filter batch are those whose recorded block number is below the END of the batch
     (get_scripts_hash(start_number + limit)); update_block_number then raises every script below the batch end to it, so using a
     smaller bound (e.g. the batch start) silently skips a script registered inside the batch."""
@@ -229,17 +229,17 @@ def batch_script_set(ctx):
     C = ctx.body('FilterProtocol::check_filters_data')
     du = DefUse(C)
     gs = P.call_sites(C, 'Storage::get_scripts_hash')
-    ctx.floor('C09.r6', 'get_scripts_hash in check_filters_data', len(gs), 1)
+    ctx.floor(rule, 'get_scripts_hash in check_filters_data', len(gs), 1)
     t = gs[0][1]
     o = du.origins(t.args[1], stop_at_calls=False)
     has_add = any(x[0] == 'op' and x[1] in ('CheckedAdd', 'Add') for x in o)
     has_start = any(x[0] == 'call' and x[1].endswith('BlockFilters::start_number') for x in o)
     limit_local = C.debug.get('limit')
     has_limit = any(x[0] == 'param' and ('_%d' % x[1]) == limit_local for x in o)
-    ctx.ob('C09.r6', C.name, 'scripts are selected up to the end of the batch (start_number + limit)', has_add and has_start and has_limit, at=t.span,
+    ctx.ob(rule, C.name, 'scripts are selected up to the end of the batch (start_number + limit)', has_add and has_start and has_limit, at=t.span,
            add=has_add, start_number=has_start, limit=has_limit)
     # the selection predicate itself: stored_block_number < given number
     G = ctx.body('Storage::get_scripts_hash')
     lts = [c for cl in P.closures_of(G) for c in ctx.cmp_stmts(cl) if c[2] in ('Lt', 'Le', 'Gt', 'Ge')]
-    ctx.ob('C09.r6', G.name, 'a script is selected iff its recorded block number is strictly below the bound', len(lts) == 1 and lts[0][2] == 'Lt', ops=[c[2] for c in lts])
-    ctx.only_callers('C09.r6', 'Storage::get_scripts_hash', {'FilterProtocol::check_filters_data'}, 1)
+    ctx.ob(rule, G.name, 'a script is selected iff its recorded block number is strictly below the bound', len(lts) == 1 and lts[0][2] == 'Lt', ops=[c[2] for c in lts])
+    ctx.only_callers(rule, 'Storage::get_scripts_hash', {'FilterProtocol::check_filters_data'}, 1)
